@@ -187,9 +187,23 @@ Plan gen_c07(uint64_t seed, int tier)
     rem.push_back(Op{OP_REMOVE_LOGGER, priv_logger});
     main_ops.insert(main_ops.begin() + static_cast<long>(rpos), rem.begin(), rem.end());
     int const n = static_cast<int>(rr.range(1, 4));
+    // (not while the backend is stopped: a blocking queue that nobody reads would block the main thread before its START)
+    auto backend_down_at = [&main_ops](size_t pos)
+    {
+      int down = 0;
+      for (size_t k = 0; k < pos && k < main_ops.size(); ++k)
+      {
+        down += main_ops[k].k == OP_STOP ? 1 : (main_ops[k].k == OP_START ? -1 : 0);
+      }
+      return down > 0;
+    };
     for (int i = 0; i < n; ++i)
     {
       size_t const pos = rr.below(static_cast<uint32_t>(rpos + 1));
+      if (backend_down_at(pos))
+      {
+        continue;
+      }
       main_ops.insert(main_ops.begin() + static_cast<long>(pos),
                       Op{OP_LOG, priv_logger, static_cast<int64_t>(rr.below(4)), rr.range(2, 8), static_cast<int64_t>(rr.next() >> 8),
                          static_cast<int64_t>(rr.below(120)), 0});
